@@ -18,7 +18,7 @@ pub fn collect<'tcx>(tcx: TyCtxt<'tcx>, root: &mut J) {
                 let adt = tcx.adt_def(did);
                 let mut o = J::obj();
                 o.put("path", J::s(path(tcx, did)));
-                o.put("name", J::s(tcx.item_name(did).to_string()));
+                o.put("name", J::s(name_of(tcx, did)));
                 o.put("is_enum", J::Bool(adt.is_enum()));
                 o.put("span", span_j(tcx, tcx.def_span(did)));
                 o.put("expn", expn_j(tcx.def_span(did)));
@@ -158,7 +158,7 @@ pub fn collect<'tcx>(tcx: TyCtxt<'tcx>, root: &mut J) {
             DefKind::Const { .. } | DefKind::AssocConst { .. } | DefKind::Static { .. } => {
                 let mut o = J::obj();
                 o.put("path", J::s(path(tcx, did)));
-                o.put("name", J::s(tcx.item_name(did).to_string()));
+                o.put("name", J::s(name_of(tcx, did)));
                 o.put("kind", J::s(format!("{:?}", tcx.def_kind(did))));
                 o.put("ty", ty_j(tcx, tcx.type_of(did).skip_binder()));
                 o.put("vis", J::s(format!("{:?}", tcx.visibility(did))));
@@ -170,7 +170,7 @@ pub fn collect<'tcx>(tcx: TyCtxt<'tcx>, root: &mut J) {
             DefKind::Fn | DefKind::AssocFn => {
                 let mut o = J::obj();
                 o.put("path", J::s(path(tcx, did)));
-                o.put("name", J::s(tcx.item_name(did).to_string()));
+                o.put("name", J::s(name_of(tcx, did)));
                 o.put("vis", J::s(format!("{:?}", tcx.visibility(did))));
                 o.put("attrs", attrs_j(tcx, def));
                 fns.push(o);
